@@ -190,7 +190,7 @@ def random_hist_items(seed, count, max_ops=30):
 # seeded random model trees (the code -> spec direction goes far beyond TLC's bound)
 # ------------------------------------------------------------------------------------------------
 KEYS = [[0, v] for v in range(-2, 6)] + [[1, v] for v in range(0, 9)] + [[2, v] for v in range(-1, 3)] + \
-       [[3, v] for v in range(1, 4)] + [[4, v] for v in range(1, 4)] + [[5, v] for v in range(1, 3)]
+       [[3, v] for v in range(1, 4)] + [[4, v] for v in range(1, 4)] + [[5, v] for v in range(1, 3)] + [[6, v] for v in range(0, 6)]
 
 
 class Gen:
@@ -208,7 +208,7 @@ class Gen:
         r = self.rng
         style = r.random()
         if style < 0.45:      # one comparable class
-            ty = r.choice([0, 1, 3, 5])
+            ty = r.choice([0, 1, 3, 5, 6, 6])
             pool = [k for k in KEYS if k[0] == ty]
         elif style < 0.6:     # numbers: int and float mixed
             pool = [k for k in KEYS if k[0] in (0, 2)]
